@@ -296,7 +296,7 @@ def run(chk, prog):
     # ---- R7: what is saved (the map) is what the run used (the bound fields) --------------------------------
     pfn, muts = O.vm_mutations(prog)
     chk.used(pfn)
-    A.require(len(muts) >= 3, "parse: changes of the variables map not found")
+    A.require(len(muts) >= 2, "parse: changes of the variables map not found")
     for n, ok in muts:
         chk.check(ok, "R7", A.loc(pfn, n), "map change `%s` is notified before parse() returns true: the saved value is the value the run used"
                   % A.show(n)[:70].replace("\n", " "), "parse:unnotified:%s" % A.show(n)[:50].replace(" ", ""))
